@@ -4,7 +4,11 @@ import Dasp.Model.Fork
 
     `fork <cap> <n> <v_1 … v_n> <ops>` — source = the `n` frames then equilibrium (0) forever;
     `ops` is one token over `A` (branch A `next`), `B`, `r` (drop handles, `by_ref` again),
-    `c` (drop handles, `by_rc`).  Reply: one `<frame|->:<pending_A>:<pending_B>:<pulls>` per op. -/
+    `c` (drop handles, `by_rc`), `a` / `b` (drop the handle of branch A / B only; a later split
+    hands out both again).  Reply: one `<frame|->:<pending_A|->:<pending_B|->:<pulls>` per op;
+    `pending_frames` of a dropped handle cannot be observed and is masked with `-` here (the
+    liveness bookkeeping is the driver's, the shared state and every number come from
+    `Dasp.Fork.trace`); a pull on a dropped handle is a malformed request. -/
 namespace Dasp.Driver
 open Dasp.Fork Dasp.SrcQueue
 
@@ -13,11 +17,31 @@ def forkOp? : Char → Option Op
   | 'B' => some (.pull false)
   | 'r' => some .resplitRef
   | 'c' => some .resplitRc
+  | 'a' => some (.drop true)
+  | 'b' => some (.drop false)
   | _ => none
 
-def showForkObs (o : Obs Int) : String :=
+def showForkObs (o : Obs Int) (liveA liveB : Bool) : String :=
   let f := match o.frame with | some v => toString v | none => "-"
-  s!"{f}:{o.pendA}:{o.pendB}:{o.pulls}"
+  let pa := if liveA then toString o.pendA else "-"
+  let pb := if liveB then toString o.pendB else "-"
+  s!"{f}:{pa}:{pb}:{o.pulls}"
+
+/-- which handles exist after each op; `none` if the schedule uses a handle that is gone, drops
+    one twice, or splits again after `by_rc` consumed the fork -/
+def forkLiveness : List Op → Bool → Bool → Bool → Option (List (Bool × Bool))
+  | [], _, _, _ => some []
+  | o :: r, la, lb, rc =>
+    let nxt : Option (Bool × Bool × Bool) := match o with
+      | .pull true => if la then some (la, lb, rc) else none
+      | .pull false => if lb then some (la, lb, rc) else none
+      | .resplitRef => if rc then none else some (true, true, false)
+      | .resplitRc => if rc then none else some (true, true, true)
+      | .drop true => if la then some (false, lb, rc) else none
+      | .drop false => if lb then some (la, false, rc) else none
+    match nxt with
+    | none => none
+    | some (la', lb', rc') => (forkLiveness r la' lb' rc').map ((la', lb') :: ·)
 
 def forkLine (args : List String) : String :=
   match args with
@@ -27,8 +51,11 @@ def forkLine (args : List String) : String :=
       if cap = 0 ∨ rest.length ≠ n + 1 then "bad-op" else
       match (rest.take n).mapM String.toInt?, (rest.getD n "").toList.mapM forkOp? with
       | some frames, some ops =>
-        let s := init { frames := frames, eq := (0 : Int), pos := 0 } cap
-        " ".intercalate ((trace s ops).map showForkObs)
+        match forkLiveness ops false false false with
+        | none => "bad-op"
+        | some live =>
+          let s := init { frames := frames, eq := (0 : Int), pos := 0 } cap
+          " ".intercalate (((trace s ops).zip live).map fun (o, l) => showForkObs o l.1 l.2)
       | _, _ => "bad-op"
     | _, _ => "bad-op"
   | _ => "bad-op"
